@@ -197,7 +197,43 @@ def case_accumulate(dim, kernel, dtype, dx, ncomp, depth):
     return CaseResult(fails=res.fails, states=res.states, transitions=res.transitions, traces=res.transitions, outcome=f"acc:{dim}:{kernel}:{ncomp}:{res.states}", extra={"bfs_states": res.states})
 
 
-CASES = {"adjoint": case_adjoint, "accumulate": case_accumulate}
+def case_sequence(dim, kernel, dtype, ncomp, dx_order):
+    """Construction history: communicators with the same marker count / components but different
+    grid spacing (and kernel type) built one after the other in ONE process; each must still satisfy
+    the adjoint identity <F, I u> = <S F, u> dx^d and reproduce constants."""
+    real_t = np.dtype(dtype).type
+    eps = float(np.finfo(real_t).eps)
+    shape = lagcomm.SHAPES[dim]
+    n = lagcomm.N_BATCH
+    fails = []
+    trans = 0
+    fshape = shape if ncomp == 1 else (ncomp, *shape)
+    lshape = (n,) if ncomp == 1 else (ncomp, n)
+    for pos, dx in enumerate(dx_order):
+        comm = lagcomm.Comm(dim, kernel, real_t, dx, n_components=ncomp)
+        P = marker_set("spread-out", dim, shape, dx, real_t, pos)
+        comm.locate(P.copy())
+        u = (np.sin(np.arange(int(np.prod(fshape))) * 0.37 + pos) + 1.5).reshape(fshape).astype(real_t)
+        F = (np.cos(np.arange(int(np.prod(lshape))) * 1.1 + pos) * 2).reshape(lshape).astype(real_t)
+        Iu = np.zeros(lshape, dtype=real_t)
+        comm.interpolate(Iu, u)
+        SF = np.zeros(fshape, dtype=real_t)
+        comm.spread(SF, F)
+        trans += 2
+        lhs = float((F.astype(np.float64) * Iu.astype(np.float64)).sum())
+        rhs = float((SF.astype(np.float64) * u.astype(np.float64)).sum() * dx**dim)
+        scale = float(np.abs(F).sum() * np.abs(u).max())
+        if not abs(lhs - rhs) <= 64 * eps * scale:
+            fails.append(Fail(f"{kernel}:ncomp={ncomp}:construction-history", "a communicator built after another one with a different grid spacing in the same process violates the adjoint identity", dim=dim, dx_sequence=list(dx_order), position=pos, lhs=lhs, rhs=rhs))
+        const = np.full(fshape, 2.5, dtype=real_t)
+        Ic = np.zeros(lshape, dtype=real_t)
+        comm.interpolate(Ic, const)
+        if not np.abs(Ic - 2.5).max() <= 64 * eps * 2.5:
+            fails.append(Fail(f"{kernel}:ncomp={ncomp}:construction-history-constant", "a communicator built after another one with a different grid spacing does not interpolate a constant to itself", dim=dim, dx_sequence=list(dx_order), position=pos, got=float(Ic.ravel()[0])))
+    return CaseResult(fails=fails, states=len(dx_order), transitions=trans, traces=trans, outcome=f"seq:{dim}:{kernel}:{ncomp}:{dx_order}")
+
+
+CASES = {"adjoint": case_adjoint, "accumulate": case_accumulate, "sequence": case_sequence}
 
 
 def run(r) -> None:
@@ -214,6 +250,9 @@ def run(r) -> None:
     acc = [dict(dim=dim, kernel=k, dtype=dt, dx=lagcomm.DXS[0], ncomp=nc, depth=3 if quick else 4)
            for dim in (2, 3) for k in ("cosine", "peskin") for dt in ("float64", "float32") for nc in (1, dim)]
     r.run_cases("accumulation-bfs", "accumulate", acc)
+    seqs = [dict(dim=dim, kernel=k, dtype=dt, ncomp=nc, dx_order=list(o)) for dim in (2, 3) for k in ("cosine", "peskin") for dt in ("float64", "float32") for nc in (1, dim)
+            for o in itertools.permutations(lagcomm.DXS, 2)]
+    r.run_cases("construction-sequences", "sequence", seqs)
     r.bounds = {"marker_sets": SETS, "batch": lagcomm.N_BATCH, "dx": lagcomm.DXS[:1] if quick else lagcomm.DXS, "components": "1 and dim", "history_depth": 3 if quick else 4}
     r.extra["rule"] = "adjoint: one state per unit impulse (cell x component) and per unit force (marker x component); accumulation: BFS states = bytes of the target field"
     r.assumptions = ["numba closures (fastmath) driven directly; entries compared to 16 eps"]
